@@ -50,23 +50,24 @@ Definition ox_close (has_auth : bool) (p : str) (at_slash : bool) : str * bool :
 Definition ox_ambiguous (has_auth : bool) (p : str) : bool :=
   negb has_auth && starts_with [k_slash; k_slash] p.
 
-(* parse_path::<true>: result path and the unread rest of the reference ("?..." / "#..." / "") *)
-Fixpoint ox_path (has_auth : bool) (p : str) (inp : str) : option (str * str) :=
+(* parse_path::<true>: result path and the unread rest of the reference ("?..." / "#..." / "").
+   [check] = the parser's UNCHECKED parameter is off: the "//" test is performed and may fail. *)
+Fixpoint ox_path (check has_auth : bool) (p : str) (inp : str) : option (str * str) :=
   match inp with
   | [] => let (p', _) := ox_close has_auth p false in
-          if ox_ambiguous has_auth p' then None else Some (p', [])
+          if check && ox_ambiguous has_auth p' then None else Some (p', [])
   | c :: rest =>
       if N.eqb c k_slash then
         let (p', fall) := ox_close has_auth p true in
-        if fall && ox_ambiguous has_auth p' then None else ox_path has_auth p' rest
+        if check && fall && ox_ambiguous has_auth p' then None else ox_path check has_auth p' rest
       else if N.eqb c k_qmark || N.eqb c k_hash then
         let (p', _) := ox_close has_auth p false in
-        if ox_ambiguous has_auth p' then None else Some (p', inp)
-      else ox_path has_auth (p ++ [c]) rest
+        if check && ox_ambiguous has_auth p' then None else Some (p', inp)
+      else ox_path check has_auth (p ++ [c]) rest
   end.
 
-(* Iri::resolve: None = Err(IriParseError), which Resolvable::output_abs unwraps (a panic) *)
-Definition resolve_impl (base ref : str) : option str :=
+(* oxiri's Iri::resolve (check = true; None = Err(IriParseError)) and Iri::resolve_unchecked (check = false) *)
+Definition resolve_gen (check : bool) (base ref : str) : option str :=
   let b := parse5 base in
   let r := parse5 ref in
   let pre := match p_scheme b with Some s => s ++ [k_colon] | None => [] end in          (* base[..scheme_end] *)
@@ -83,16 +84,22 @@ Definition resolve_impl (base ref : str) : option str :=
         if N.eqb c k_slash then
           match rest with
           | d :: _ => if N.eqb d k_slash then Some (pre ++ ref)    (* parse_relative_slash, "//": copied *)
-                      else finish (ox_path has_auth [k_slash] rest)
-          | [] => finish (ox_path has_auth [k_slash] rest)
+                      else finish (ox_path check has_auth [k_slash] rest)
+          | [] => finish (ox_path check has_auth [k_slash] rest)
           end
         else if N.eqb c k_qmark then Some (pre_auth ++ p_path b ++ ref)
         else if N.eqb c k_hash then Some (pre_auth ++ p_path b ++ bq ++ ref)
-        else finish (ox_path has_auth (ox_remove_last has_auth (p_path b)) ref)
+        else finish (ox_path check has_auth (ox_remove_last has_auth (p_path b)) ref)
     end
   end.
 
-(* ---------- harness-facing checkers ---------- *)
+(* BaseIri::resolve / Iri::resolve on a typed (already validated) reference, iri/src/resolve.rs.
+   FIXED code (build/proposed/C09-resolve.diff): Resolvable::KNOWN_VALID selects resolve_unchecked, so
+   there is no Result to unwrap.  None would be a panic. *)
+Definition resolve_impl (base ref : str) : option str := resolve_gen false base ref.
+(* PRE-FIX code: oxiri's checked resolve, whose Err is unwrapped by Resolvable::output_abs *)
+Definition resolve_impl_prefix (base ref : str) : option str := resolve_gen true base ref.
+
 (* validation: the model (regenerated regexes) against the implementation's four verdicts, the
    hand-written grammar against the Rust oracle's two verdicts, and Namespace::new(ns).get(suffix)
    where ns/suffix are the string cut at [cut] *)
